@@ -103,7 +103,7 @@ def touched_hull(d: dict) -> tuple[int, int] | None:
 
 # ------------------------------------------------------------------ random / perturbed steps
 
-_JSON_VALUES = [None, 0, 1, 2, 3.5, "x", "", "\U0001F600", True, [1, [2]], {"k": [1, {"z": None}]}]
+_JSON_VALUES = [None, 0, 1, 2, 3.5, "x", "", "\U0001F600", [1, [2]], {"k": [1, {"z": None}]}]
 
 
 def rand_slice(R: Draw, g: DocGen, size: str = "tiny") -> dict:
